@@ -92,7 +92,7 @@ func (r *Router) SetErrorHandler(h func(error)) {
 
 // Does path match pattern?
 func pathMatch(pattern Route, path string) bool {
-	return pattern.regexMatcher.regexp.MatchString(path)
+	return pattern.regexMatcher.matchString(path)
 }
 
 // FilterPath checks the unfiltered input path or pattern against a blacklist and transforms them into valid paths
